@@ -129,7 +129,12 @@ func (w *world) stressRace(r *rng.R, iter int) {
 			_ = b.Close()
 		}()
 	}
-	wg.Wait()
+	wgDone := make(chan struct{})
+	go func() { wg.Wait(); close(wgDone) }()
+	if !w.waitDone(wgDone, "stress race: Send / Close / Start from concurrent callers") {
+		_ = b.Close()
+		return
+	}
 	// Close() was called: the session must end by itself (the peer reads, or is closed)
 	w.quiesce()
 	if w.dead != "" || w.spin {
@@ -198,19 +203,31 @@ func (w *world) stressBig(r *rng.R) {
 		for j := range p {
 			p[j] = byte((j*31 + 7*i + 3) % 251)
 		}
-		if s.Send(p) == nil {
+		var e error
+		if ok, _ := sw.call("Session.Send", func() { e = s.Send(p) }); !ok {
+			return
+		}
+		if e == nil {
 			all = append(all, p...)
 		}
 	}
-	s.Close()
+	if ok, _ := sw.call("Session.Close", func() { s.Close() }); !ok {
+		return
+	}
 	cs.closedLocal = true
 	// wait for the peer's EOF; the ceiling is generous (megabytes in 1 KiB reads), and running into it with
 	// goroutines still busy is a harness error, not a verdict
 	deadline := time.Now().Add(6 * ceiling)
+	lastLen, lastMove := -1, time.Now()
 	for {
-		_, _, _, eof, _ := cs.snapshot()
+		_, _, got, eof, _ := cs.snapshot()
 		if eof && sw.ended(cs, loopsOf()) {
 			break
+		}
+		if len(got) != lastLen {
+			lastLen, lastMove = len(got), time.Now()
+		} else if time.Since(lastMove) > 400*time.Millisecond && quietNow() {
+			break // nothing has moved for a while and every goroutine is parked: nothing more will come
 		}
 		if time.Now().After(deadline) {
 			if !quietNow() {
@@ -265,7 +282,11 @@ func (w *world) stressPar(r *rng.R) {
 			}
 		}(g)
 	}
-	wg.Wait()
+	wgDone := make(chan struct{})
+	go func() { wg.Wait(); close(wgDone) }()
+	if !w.waitDone(wgDone, "stress par: Do / peer writes from concurrent callers") {
+		return
+	}
 	w.quiesce()
 	if w.dead != "" || w.spin {
 		return
